@@ -93,6 +93,43 @@ def rule_w(ctx, F):
         ctx.on_all_paths("W1", "ts_subtree_new_node:summarises", fn, [pt for pt, n in find(fn, "ts_subtree_summarize_children(_, language)")], "a new parent node is summarised before it is returned")
 
 
+CONSTRUCTORS = ("ts_subtree_new_leaf", "ts_subtree_new_error", "ts_subtree_new_missing_leaf", "ts_subtree_new_node", "ts_subtree_new_error_node", "ts_node_new", "ts_tree_new")
+
+
+def rule_ctor(ctx, F):
+    """Every parameter of a node/tree constructor ends up in the object (a parameter that is no
+    longer used means a header field silently takes a default)."""
+    for name in CONSTRUCTORS:
+        fn = ctx.need_fn(F, name, "W3")
+        if not fn:
+            continue
+        used = set()
+        for pt, e in fn.points():
+            for n in walk(e):
+                if n.get("k") == "ref" and n.get("dk") == "param":
+                    used.add(n["name"])
+        unused = [p["name"] for p in fn.params if p["name"] not in used]
+        if unused:
+            ctx.bad("W3", "%s:unused-parameter:%s" % (name, "+".join(unused)), "%s no longer uses its parameter(s) %s: the corresponding node/tree attribute silently takes a default" % (name, unused), {"function": name})
+        else:
+            ctx.ok("W3", "%s:all-parameters-used" % name, "all %d parameters flow into the constructed object" % len(fn.params), sample={"function": name, "params": [p["name"] for p in fn.params]})
+    # the leaf constructor initialises every header field it has a parameter for, in both representations
+    fn = F.fn("ts_subtree_new_leaf")
+    if fn:
+        inits = [n for pt, e in fn.points() for n in own_walk(e) if n.get("k") == "init" and n.get("t") in ("SubtreeHeapData", "SubtreeInlineData", "Subtree")]
+        for rec in ("SubtreeHeapData",):
+            lit = [n for n in inits if n.get("t") == rec]
+            fields = F.record_fields(rec) or []
+            if lit:
+                explicit = {f["f"] for f in lit[0]["fields"] if not f.get("implicit")}
+                must = {"ref_count", "padding", "size", "lookahead_bytes", "symbol", "parse_state", "visible", "named", "extra", "has_external_tokens", "depends_on_column", "is_missing", "is_keyword"}
+                missing = sorted(must - explicit)
+                if missing:
+                    ctx.bad("W3", "ts_subtree_new_leaf:heap-init:%s" % "+".join(missing), "the heap leaf literal in ts_subtree_new_leaf no longer initialises %s" % missing)
+                else:
+                    ctx.ok("W3", "ts_subtree_new_leaf:heap-init", "the heap leaf literal sets %d header fields explicitly" % len(explicit))
+
+
 def rule_p1(ctx, F):
     fn = ctx.need_fn(F, "ts_subtree_compress", "P1")
     if not fn:
@@ -188,6 +225,7 @@ def run(ctx):
         F = ctx.extract.cfacts(cfg)
         ctx.analysed["c_functions_" + cfg] = len(F.fn_list)
         rule_w(ctx, F)
+        rule_ctor(ctx, F)
         rule_p1(ctx, F)
         rule_p2(ctx, F)
         import C06
